@@ -499,7 +499,21 @@ func runC16Race(t *testing.T, cases []map[string]interface{}, ev *vEvents) {
 			go func(k int) {
 				defer wg3.Done()
 				<-start
-				for n := 0; n < 6; n++ {
+				iters := 6
+				if k%2 == 1 {
+					iters = 80
+				}
+				for n := 0; n < iters; n++ {
+					if k%2 == 1 {
+						// one kind of request only, again and again (nothing else this goroutine does in between takes any of
+						// the daemon's locks): what the handler reads of the daemon's state it must read properly
+						if k == 1 {
+							sw.Do(vReq{Method: "POST", Path: "/api/v0/login", Form: url.Values{"username": {"alice"}, "password": {"pw-alice"}}})
+						} else {
+							sw.Do(vReq{Method: "GET", Path: u2fSignRequestPath, Cookies: map[string]string{authCookieName: "x"}})
+						}
+						continue
+					}
 					sw.DoFunc(sw.st.readyzHandler, vReq{Method: "GET", Path: readyzPath})
 					sw.Do(vReq{Method: "GET", Path: "/public/x509ca"})
 					sw.Do(vReq{Method: "POST", Path: "/api/v0/login", Form: url.Values{"username": {"alice"}, "password": {"pw-alice"}}})
